@@ -303,6 +303,11 @@ def _containers_x_pool(ctx):
     nodes += [spec.IterT(k, e()) for k in ("List", "list", "Set", "FrozenSet", "Sequence", "MutableSequence", "Deque", "VarTuple", "Iterable", "Collection") if k in spec.ITERABLES
               for e in (A, O, I)]
     nodes += [spec.TupleT([A(), A()]), spec.TupleT([A()]), spec.TupleT([I(), S()])]
+    # ... and as the FIRST case of a union whose later case takes what the container refuses: the union fails only if every case fails
+    # (seeded change: a lax DISABLE fast path for as-is elements returned the bare constructor, whose TypeError ended the union search)
+    nodes += [spec.UnionT([spec.IterT(k, e()), other()]) for k in ("List", "Set", "VarTuple", "Iterable", "Deque") for e in (A, I) for other in (S, spec.FloatT)
+              if not (k == "Set" and e is A)]   # Set[Any] with an unhashable element is the known C04 finding (raw TypeError), not a second one here
+    nodes += [spec.UnionT([spec.DictT("Dict", A(), A()), I()]), spec.UnionT([spec.TupleT([A(), A()]), S()]), spec.IterT("List", spec.UnionT([spec.IterT("List", A()), S()]))]
     bag = [(lbl, fac, lbl in ONE_SHOT) for lbl, fac in POOL]
     for n in nodes:
         ctx.count("container_pool_programs")
